@@ -2,6 +2,7 @@
 //! runtime (`verif_rt::chan`).  rs-store's `channel.rs` compiles against it unchanged.
 pub mod channel {
     pub use verif_rt::chan::{
-        bounded, Receiver, RecvError, SendError, Sender, TryRecvError, TrySendError,
+        bounded, Receiver, RecvError, RecvTimeoutError, SendError, SendTimeoutError, Sender, TryRecvError,
+        TrySendError,
     };
 }
